@@ -425,6 +425,8 @@ func (x *jobCtx) finding(kind string, k int, errno string, v *verdict, what stri
 		}
 	case "lint":
 		sig = fmt.Sprintf("lint:%s:#%d:%s:%s", oc, k, x.ref.calls[k].class(x.oldHead()), v.oracle)
+	case "nofault":
+		sig = fmt.Sprintf("nofault:%s:%s", oc, v.oracle)
 	}
 	x.res.Findings = append(x.res.Findings, Finding{Pair: x.job.Pair, Kind: kind, K: k, Errno: errno, Oracle: v.oracle, Signature: sig, What: what, Detail: v.detail})
 }
@@ -546,6 +548,15 @@ func RunJob(job *Job, verbose bool) (res *Result) {
 			if len(res.Findings) > 0 {
 				f := &res.Findings[len(res.Findings)-1]
 				f.What += " - NO fault injected: the operation itself leaves this state"
+				return res
+			}
+			if ref.rep.Err == "" {
+				// The operation returned success, the process dies right after it: the directory is an acceptable crash
+				// state (the old one) but not the complete new state - the acknowledged effect is not durable
+				// ("once an operation has returned success its effect is durable").  On the unchanged tree this never
+				// fires; if the reference model were wrong it would show here as well, so the detail names the oracle.
+				x.finding("nofault", n, "", &verdict{oracle: "success-not-durable:" + v.oracle, detail: v.detail},
+					fmt.Sprintf("%s returned success without any fault, but a process death right after it leaves the OLD state: the acknowledged effect is not on disk", vop))
 				return res
 			}
 			return herr("oracle rejects the state left by the fault-free reference run: %s: %s", v.oracle, v.detail)
